@@ -90,6 +90,9 @@ func shadowOracle(rs []rec, tsIn []float64) (os []segOracle, ok bool) {
 					if n := len(o.inv); n > 0 && ((r.k != 'A' && v < o.inv[n-1]) || (r.k == 'A' && (o.th1 <= o.th2) == (v < o.inv[n-1]))) {
 						branch("inverse-not-monotone-" + string(r.k))
 					}
+					if n := len(o.inv); r.k != 'A' && n > 0 && !(o.inv[n-1] < 1.0) {
+						branch("cut-after-t0-reached-1")
+					}
 					if r.k != 'A' && math.Abs(v-1) <= 1e-10 {
 						branch("remainder-skipped(t0==1)")
 					}
@@ -147,6 +150,22 @@ func corrSplitAt(c *hc.Ctx) {
 		case 5:
 			if c.Chance(0.4) {
 				ts = append(ts, 0, 0) // only one leading 0 is dropped
+			}
+		case 6:
+			// two positions on the very end of a leading Bezier: the second cut finds t0 == 1 (5884f31)
+			if rs[1].k == 'Q' || rs[1].k == 'C' {
+				x0, y0 := rs[0].end()
+				f := rs[1].f
+				p0 := canvas.Point{X: x0, Y: y0}
+				var dT float64
+				if rs[1].k == 'Q' {
+					_, dT = canvas.VerifC09InvArcLength('Q', p0, canvas.Point{X: f[0], Y: f[1]}, canvas.Point{X: f[2], Y: f[3]}, canvas.Point{})
+				} else {
+					_, dT = canvas.VerifC09InvArcLength('C', p0, canvas.Point{X: f[0], Y: f[1]}, canvas.Point{X: f[2], Y: f[3]}, canvas.Point{X: f[4], Y: f[5]})
+				}
+				if dT > 0 && !math.IsInf(dT, 0) {
+					ts = append(ts, dT, dT)
+				}
 			}
 		case 3:
 			// a position exactly at a vertex of a leading polyline
